@@ -122,9 +122,12 @@ def execute_opt(case, t):
 
 @st.composite
 def relabel_case(draw):
-    return {"K": draw(st.integers(2, 4)), "n": draw(st.integers(1, 4)), "T": draw(st.integers(5, 40)),
-            "seed": draw(st.integers(0, 2 ** 32 - 1)), "v": draw(st.sampled_from(VALUES + [0.0, 0.0])),
-            "duplicate_cluster": draw(st.sampled_from([False, False, True]))}
+    eq = draw(st.sampled_from([False, False, True]))
+    return {"K": draw(st.integers(2, 4)) if not eq else draw(st.sampled_from([2, 2, 3])), "n": draw(st.integers(1, 4)), "T": draw(st.integers(5, 40)),
+            "seed": draw(st.integers(0, 2 ** 32 - 1)),
+            "v": draw(st.sampled_from(VALUES + [0.0, 0.0])) if not eq else draw(st.sampled_from([0.0, 0.0, 0.0, 0.125, 2.0])),
+            "duplicate_cluster": draw(st.sampled_from([False, False, True])) and not eq,
+            "equidistant_points": eq}
 
 
 def _relabel(case, beta):
@@ -141,6 +144,14 @@ def _relabel(case, beta):
         B = rng.normal(size=(n, n))
         ms.clusters[k].train_inverse = B @ B.T + np.eye(n)
         ms.clusters[k].stacked_data_mean = rng.normal(size=n) + k * 1.5
+    if case.get("equidistant_points"):
+        # two clusters with the same precision and means 0 and 2 (all exact), points at 0, 2 and exactly half-way: the half-way
+        # points are exactly equally cheap in both, the others are not -> exact ties after a strict preference
+        ms.clusters[K - 1].train_inverse = ms.clusters[0].train_inverse.copy()
+        ms.clusters[0].stacked_data_mean = np.zeros(n)
+        ms.clusters[K - 1].stacked_data_mean = np.full(n, 2.0)
+        pattern = rng.choice(np.array([0.0, 2.0, 1.0, 1.0, 2.0, 1.0]), size=T)
+        data[:] = pattern[:, None]
     if case.get("duplicate_cluster"):
         # two clusters with the very same model: every point is exactly equally cheap in both (exact ties in the table)
         ms.clusters[K - 1].train_inverse = ms.clusters[0].train_inverse.copy()
